@@ -464,9 +464,12 @@ class Sampler:
         Stores all current parameters used with the sampler in a list and
         returns this.
         """
-        # Store circuit unitary and input state
+        # Store circuit unitary, number of modes and input state. The number of
+        # modes is required as two circuits with a different number of loss
+        # elements can have the same full unitary
         vals = [
             self.__circuit.U_full,
+            self.__circuit.n_modes,
             self.__circuit.heralds,
             self.input_state,
             self.backend.backend,
